@@ -375,12 +375,43 @@ def digest(obs):
     return hashlib.blake2b(json.dumps(obs["requests"], sort_keys=True).encode(), digest_size=8).hexdigest()
 
 
+def cli_run(doc_name, cli_seed):
+    """One real `st run --seed <n>` in this process; -> the normalised request sequence."""
+    preload()
+    from vmon.instr import engine
+
+    args = ["--seed", str(cli_seed), "--max-examples", "6", "--phases", "fuzzing", "--generation-database", "none", "--suppress-health-check", "all", "--workers", "1"]
+    result = engine.run_cli(DOCS[doc_name](), args, rules=docs.LINK_RULES, timeout=150)
+    requests_ = []
+    for r in result.test_requests():
+        headers = sorted((k.lower(), v) for k, v in r["headers"] if k.lower() not in IGNORED_HEADERS)
+        requests_.append(["FUZZING", "cli", r["method"], r["raw_path"], headers, r["body"]])
+    return json.loads(json.dumps({"requests": requests_, "failures": [], "hung": result.hung, "error": result.harness_error, "exit": result.exit_code}))
+
+
+def cli_seed_probe(emit):
+    """The seed as the user gives it (`--seed N` on the command line, 0 included) is the seed that is used."""
+    for doc_name in ("many_required", "rich"):
+        for cli_seed in (0, 7):
+            a, b = cli_run(doc_name, cli_seed), cli_run(doc_name, cli_seed)
+            if a["hung"] or b["hung"] or a["error"] or b["error"]:
+                emit.inconclusive(f"cli seed probe: run did not complete ({a['error'] or b['error'] or 'watchdog'})")
+                continue
+            emit.count("cli_seed_pairs")
+            emit.count("requests_compared", len(a["requests"]))
+            emit.case(sig=f"cli|{doc_name}|{cli_seed}|{digest(a)}" if len(a["requests"]) >= 5 else None, sample=None)
+            for key, what in compare_sequences("cli-seed", {"doc": doc_name}, a, b):
+                emit.viol(key + f":seed-{'zero' if cli_seed == 0 else 'nonzero'}", what, {"cli_probe": {"doc": doc_name, "seed": cli_seed}})
+
+
 def run_shard(spec, emit):
     tier, seed, shard, nshards = spec["tier"], spec["seed"], spec["shard"], spec["nshards"]
     sys.setswitchinterval(1e-5)
     groups = [g for i, g in enumerate(gen_groups(tier, seed)) if i % nshards == shard]
     deadline = time.monotonic() + (95 if tier == "quick" else 300)
     samples = 0
+    if shard == nshards - 1:
+        cli_seed_probe(emit)
     for gi, group in enumerate(groups):
         if time.monotonic() > deadline:
             emit.count("groups_skipped_budget")
@@ -426,6 +457,10 @@ def run_shard(spec, emit):
 
 
 def replay(case):
+    if "cli_probe" in case:
+        pr = case["cli_probe"]
+        viols = compare_sequences("cli-seed", {"doc": pr["doc"]}, cli_run(pr["doc"], pr["seed"]), cli_run(pr["doc"], pr["seed"]))
+        return [{"key": k + f":seed-{'zero' if pr['seed'] == 0 else 'nonzero'}", "what": w} for k, w in viols]
     group = case["group"]
     p1 = run_in_fresh_process(group, 1)
     p2 = run_in_fresh_process(group, 4242)
